@@ -164,7 +164,9 @@ func runComponentTCPOnce(k int, kind string, payload []byte) []string {
 // stallTimeout: the client timeout of the stall cases: long enough to list, pack, encrypt and copy the whole reply over loopback
 const stallTimeout = 2 * time.Second
 
-func runStall(args []string) []string {
+func runStall(args []string) []string { return retryInfra(func() []string { return runStallOnce(args) }) }
+
+func runStallOnce(args []string) []string {
 	if len(args) != 2 {
 		return []string{"bad-op"}
 	}
@@ -267,7 +269,9 @@ func runStall(args []string) []string {
 // (cmd/swat4master/components/api: gin router + pkg/http/httpserver with the configured read / write timeouts):
 // `GET /api/servers` with a body far larger than the socket buffers, to a client that reads (F bytes) and to one that
 // stalls past the write timeout (S bytes).  Output: `stall:<S>:<F>`.
-func runStallHTTP(args []string) []string {
+func runStallHTTP(args []string) []string { return retryInfra(func() []string { return runStallHTTPOnce(args) }) }
+
+func runStallHTTPOnce(args []string) []string {
 	if len(args) != 2 {
 		return []string{"bad-op"}
 	}
@@ -356,4 +360,18 @@ func runStallHTTP(args []string) []string {
 	time.Sleep(writeTimeout + 1200*time.Millisecond)
 	got := readAll(c2, 5*time.Second)
 	return []string{fmt.Sprintf("stall:%d:%d", got, full)}
+}
+
+// retryInfra: a case whose set-up failed for a reason of the machine (the port picked by listen-and-close was taken again
+// before the component bound it, a dial refused under load) is run again from scratch, a few times
+func retryInfra(f func() []string) []string {
+	var out []string
+	for try := 0; try < 6; try++ {
+		out = f()
+		if len(out) == 0 || !strings.HasPrefix(out[0], "infra") {
+			return out
+		}
+		time.Sleep(150 * time.Millisecond)
+	}
+	return out
 }
